@@ -2,6 +2,7 @@
 //! Prints one JSON object on the last line: {"violates": bool, "input": …, "expected": …, "observed": …}.
 mod range;
 mod pattern;
+mod service;
 
 fn main() {
     let args: Vec<String> = std::env::args().skip(1).collect();
@@ -10,6 +11,7 @@ fn main() {
         Some("range") => range::one(&args[1..]),
         Some("pattern-search") => pattern::search(),
         Some("pattern") => pattern::one(&args[1..]),
+        Some("route") => service::route(&args[1..]),
         _ => serde_json::json!({"error": "usage: replay <range-search|range|pattern-search|pattern> …"}),
     };
     println!("{out}");
